@@ -47,6 +47,7 @@ type recWorld struct {
 	lose      map[int64]int // segment start -> how many more times the peer will not see it
 	firstAck  bool
 	win       uint16
+	division  bool // this run's receiver also acknowledges in the middle of segments
 }
 
 func (scRecovery) GenCfg(rng *sim.Rand, tier, prop, variant string) json.RawMessage {
@@ -217,6 +218,21 @@ func (w *recWorld) sendAck() {
 	}
 }
 
+// ackTo moves the peer's cumulative position, credits the segments it now
+// covers completely and sends the ACK.
+func (w *recWorld) ackTo(to int64) {
+	if to > w.cum {
+		w.cum = to
+		for _, o := range w.order {
+			if s := w.segs[o]; !s.acked && s.end <= w.cum {
+				s.acked = true
+				w.ackedSegs++
+			}
+		}
+	}
+	w.sendAck()
+}
+
 // look lets the peer process the next n segments of its inbox.
 func (w *recWorld) look(n int) {
 	for ; n > 0 && len(w.inbox) > 0 && w.Viol == nil; n-- {
@@ -239,18 +255,17 @@ func (w *recWorld) look(n int) {
 			w.got[off+int64(i)] = true
 		}
 		old := w.cum
-		for w.cum < int64(len(w.got)) && w.got[w.cum] {
-			w.cum++
+		nu := w.cum
+		for nu < int64(len(w.got)) && w.got[nu] {
+			nu++
 		}
-		if w.cum > old {
-			for _, o := range w.order {
-				if s := w.segs[o]; !s.acked && s.end <= w.cum {
-					s.acked = true
-					w.ackedSegs++
-				}
-			}
+		if nu > old+1 && w.division {
+			// ACK division: a receiver may acknowledge any byte it holds, also one
+			// in the middle of a segment; such an ACK acknowledges no whole segment
+			w.ackTo(old + (nu-old)/2)
+			w.Probes["acks_inside_a_segment"]++
 		}
-		w.sendAck()
+		w.ackTo(nu)
 	}
 }
 
@@ -386,6 +401,7 @@ func (scRecovery) Run(t *testing.T, prop string, seed uint64, cfgRaw json.RawMes
 	bubble(t, func() {
 		ww := &winWorld{PeerWorld: NewPeerWorld(seed, uint32(cfg.MTU), NodeOpts{SACK: cfg.SACK, CC: cfg.CC}), cfg: cfg}
 		w := &recWorld{winWorld: ww, segs: map[int64]*segRec{}, lose: map[int64]int{}, lastAckNo: -1, win: 65535}
+		w.division = sim.Mix(seed^0xd1f)%4 == 0
 		defer w.Close()
 		w.TraceOn = trace
 		w.YieldP = cfg.YieldP
